@@ -1,6 +1,6 @@
 (* C15 -- wait_procs: the gone/alive bookkeeping, for every kernel and every iteration order. *)
-From PV Require Import C15.Spec.
-From Coq Require Import Permutation Lia.
+From PV Require Import C15.Spec C15.Proofs.
+From Coq Require Import Permutation Lia Lqa.
 Open Scope Z_scope.
 Open Scope Q_scope.
 
@@ -230,3 +230,138 @@ Section Part.
       + apply minus_In in Ha. destruct Ha as [Ha _]. apply SUB1 in Ha. apply in_seq in Ha. lia.
   Qed.
 End Part.
+
+(* ---- wait_procs returns before timeout + one 40 ms poll, for every iteration order ---- *)
+Section Deadline.
+  Variable ps : list proc.
+  Variable cb : cbkind.
+  Variable fuel : nat.
+  Variable order : nat -> list nat -> list nat.
+  Hypothesis order_perm : forall r l, Permutation (order r l) l.
+  Hypothesis wf_all : forallb wf_proc ps = true.
+  Let kos := map to_ko ps.
+
+  Definition dproc : proc := mk_proc 1 NeverExisted None (ExitCode 0) [].
+
+  Lemma kos_nth : forall i, (i < length ps)%nat ->
+    nth i kos dummy_ko = to_ko (nth i ps dproc) /\ wf_proc (nth i ps dproc) = true.
+  Proof.
+    intros i L. split.
+    - unfold kos. rewrite (nth_indep (map to_ko ps) dummy_ko (to_ko dproc)) by (rewrite map_length; exact L).
+      apply map_nth.
+    - rewrite forallb_forall in wf_all. apply wf_all. apply nth_In. exact L.
+  Qed.
+
+  Lemma check_gone_time : forall i tm g e g',
+    (i < length ps)%nat -> 0 <= tm ->
+    check_gone kos cb fuel i tm g = (e, g') ->
+    g_now g <= g_now g' /\ g_now g' < g_now g + tm + (1 # 25) /\ (tm == 0 -> g_now g' == g_now g).
+  Proof.
+    intros i tm g e g' L NN H. unfold check_gone in H.
+    destruct (kos_nth i L) as [KN WF]. rewrite KN in H. cbn [to_ko ko_wp ko_ex ko_pid] in H.
+    destruct (process_wait _ _ _ _ _ _ _) as [[[r o'] t'] sl] eqn:PW.
+    pose proof (process_wait_bounded _ _ _ _ _ _ _ _ _ WF NN PW) as BD.
+    destruct r; try (inversion H; subst; cbn [g_now]; exact BD).
+    destruct (negb _); inversion H; subst; cbn [g_now]; exact BD.
+  Qed.
+
+  Lemma round_time : forall d n l g cur e g' cur',
+    round kos cb fuel (Some d) n l g cur = (e, g', cur') ->
+    (forall x, In x l -> (x < length ps)%nat) ->
+    g_now g < d + (1 # 25) -> g_now g' < d + (1 # 25).
+  Proof.
+    intros d n l. induction l as [|i r IH]; intros g cur e g' cur' H IN B.
+    - cbn in H. inversion H. subst. exact B.
+    - cbn [round] in H.
+      destruct (Qle_bool (qmin (d - g_now g) (1 # Pos.of_nat n)) 0) eqn:LE.
+      + inversion H. subst. exact B.
+      + apply Qle_bool_false in LE.
+        set (t := qmin (d - g_now g) (1 # Pos.of_nat n)) in *.
+        assert (TB : t <= d - g_now g).
+        { subst t. destruct (qmin_cases (d - g_now g) (1 # Pos.of_nat n)) as [[A ->]|[A ->]]; lra. }
+        destruct (check_gone kos cb fuel i t g) as [[e1|] g1] eqn:CG;
+          (assert (0 <= t) as NN by lra);
+          destruct (check_gone_time _ _ _ _ _ (IN i (or_introl eq_refl)) NN CG) as (M1 & M2 & _).
+        * inversion H. subst. lra.
+        * eapply IH; eauto. -- intros x Hx. apply IN. right. exact Hx. -- lra.
+  Qed.
+
+  Lemma sweep_time : forall l g e g',
+    sweep kos cb fuel l g = (e, g') ->
+    (forall x, In x l -> (x < length ps)%nat) -> g_now g' == g_now g.
+  Proof.
+    induction l as [|i r IH]; intros g e g' H IN.
+    - cbn in H. inversion H. subst. reflexivity.
+    - cbn [sweep] in H.
+      destruct (check_gone kos cb fuel i 0 g) as [[e1|] g1] eqn:CG;
+        (assert (0 <= 0) as NN by lra);
+        destruct (check_gone_time _ _ _ _ _ (IN i (or_introl eq_refl)) NN CG) as (_ & _ & Z).
+      + inversion H. subst. apply Z. reflexivity.
+      + rewrite (IH g1 e g' H); [apply Z; reflexivity|]. intros x Hx. apply IN. right. exact Hx.
+  Qed.
+
+  Lemma minus_sub : forall a g x, In x (minus a g) -> In x a.
+  Proof. intros a g x H. unfold minus in H. apply filter_In in H. apply H. Qed.
+
+  Lemma outer_time : forall rounds d alive g cur r e alive' g' r',
+    outer kos cb fuel order rounds (Some d) alive g cur r = (e, alive', g', r') ->
+    (forall x, In x alive -> (x < length ps)%nat) ->
+    g_now g < d + (1 # 25) ->
+    g_now g' < d + (1 # 25) /\ (forall x, In x alive' -> (x < length ps)%nat).
+  Proof.
+    induction rounds as [|f IH]; intros d alive g cur r e alive' g' r' H IN B.
+    - cbn [outer] in H. destruct alive as [|a al]; [inversion H; subst; split; assumption|].
+      destruct (match cur with Some t => Qle_bool t 0 | None => false end); inversion H; subst; split; assumption.
+    - cbn [outer] in H. destruct alive as [|a al]; [inversion H; subst; split; assumption|].
+      destruct (match cur with Some t => Qle_bool t 0 | None => false end); [inversion H; subst; split; assumption|].
+      set (alive := a :: al) in *.
+      destruct (round kos cb fuel (Some d) (length alive) (order r alive) g cur) as [[[e1|] g1] cur1] eqn:RD.
+      + inversion H. subst. split; [|exact IN]. eapply round_time; eauto.
+        intros x Hx. apply IN. eapply Permutation_in; [apply order_perm | exact Hx].
+      + assert (B1 : g_now g1 < d + (1 # 25)).
+        { eapply round_time; eauto. intros x Hx. apply IN. eapply Permutation_in; [apply order_perm | exact Hx]. }
+        eapply IH; eauto. intros x Hx. apply IN. eapply minus_sub. exact Hx.
+  Qed.
+
+  Theorem wait_procs_deadline : forall tm rounds start e gone alive g,
+    0 <= tm ->
+    wait_procs kos cb fuel order (Some tm) rounds start = (e, gone, alive, g) ->
+    g_now g < start + tm + (1 # 25).
+  Proof.
+    intros tm rounds start e gone alive g NN H. unfold wait_procs in H.
+    assert (B : bad_timeout (Some tm) = false) by (cbn; apply negb_false_iff; apply Qle_bool_iff; exact NN).
+    rewrite B in H.
+    set (g0 := {| g_now := start; g_objs := map (fun _ => new_pobj) kos; g_gone := []; g_rc := [];
+                  g_cb := []; g_sleeps := []; g_waits := [] |}) in *.
+    assert (B0 : g_now g0 < start + tm + (1 # 25)) by (cbn; lra).
+    assert (IN0 : forall x, In x (seq 0 (length kos)) -> (x < length ps)%nat).
+    { intros x Hx. apply in_seq in Hx. unfold kos in Hx. rewrite map_length in Hx. lia. }
+    assert (MAIN : forall X : option wres * list nat * list nat * gst,
+      match outer kos cb fuel order rounds (Some (start + tm)) (seq 0 (length kos)) g0 (Some tm) 0 with
+      | (Some e, alive, g, _) => (Some e, [], alive, g)
+      | (None, alive, g, r) =>
+        match sweep kos cb fuel (order r alive) g with
+        | (Some e, g') => (Some e, [], alive, g')
+        | (None, g') => (None, g_gone g', minus alive (g_gone g'), g')
+        end
+      end = X -> g_now (snd X) < start + tm + (1 # 25)).
+    { intros X HX.
+      destruct (outer _ _ _ _ _ _ _ _ _ _) as [[[e1 alive1] g1] r1] eqn:OU.
+      destruct (outer_time _ _ _ _ _ _ _ _ _ _ OU IN0 B0) as (B1 & IN1).
+      destruct e1 as [e1|].
+      - subst X. cbn [snd]. exact B1.
+      - destruct (sweep kos cb fuel (order r1 alive1) g1) as [[e2|] g2] eqn:SW;
+          (assert (SZ : g_now g2 == g_now g1)
+             by (eapply sweep_time; eauto; intros x Hx; apply IN1; eapply Permutation_in; [apply order_perm | exact Hx]));
+          subst X; cbn [snd]; lra. }
+    destruct cb.
+    - specialize (MAIN _ H). exact MAIN.
+    - specialize (MAIN _ H). exact MAIN.
+    - inversion H. subst. exact B0.
+  Qed.
+End Deadline.
+
+Example ex_procs : exists g,
+  wait_procs (map to_ko [ex_child; ex_stuck]) CbOk 100 (fun _ l => l) (Some (1 # 10)) 50 0 = (None, [0%nat], [1%nat], g)
+  /\ g_cb g = [0%nat] /\ forallb wf_proc [ex_child; ex_stuck] = true.
+Proof. eexists. split; [vm_compute; reflexivity|]. split; reflexivity. Qed.
